@@ -203,8 +203,9 @@ def fact_file(pkg, repo=None, log=None):
         if os.path.exists(out):
             return out, False
         raw = generate(pkg, repo, log=log)
-        # drop stale fact files of this package
-        for old in glob.glob(os.path.join(FACTS, f"{pkg}.*.json")):
+        # keep a few recent fact files of this package (content-addressed; a reverted edit is a cache hit)
+        olds = sorted(glob.glob(os.path.join(FACTS, f"{pkg}.*.json")), key=os.path.getmtime, reverse=True)
+        for old in olds[3:]:
             os.remove(old)
         os.replace(raw, out)
     return out, True
@@ -272,7 +273,8 @@ def probe_facts(name, dep_pkgs, repo=None, log=None):
                 if r.returncode != 0 or not os.path.exists(raw):
                     sys.stderr.write(r.stdout[-5000:])
                     raise SystemExit(f"probe crate {name} failed to compile (fail closed)")
-                for old in glob.glob(os.path.join(FACTS, f"{name}.*.json")):
+                olds = sorted(glob.glob(os.path.join(FACTS, f"{name}.*.json")), key=os.path.getmtime, reverse=True)
+                for old in olds[3:]:
                     os.remove(old)
                 os.replace(raw, out)
     with open(out) as f:
